@@ -182,8 +182,8 @@ Proof.
     [|apply no_candidate_bo; reflexivity].
   assert (E0 : aux s0 = aux s).
   { destruct (inv_retry s); [inversion G; reflexivity|]. destruct (valid s); inversion G; reflexivity. }
-  set (s1 := set_proxy None (set_sel_attempts (sat3 (S (sel_attempts s0))) s0)).
-  assert (E1 : aux s1 = aux s) by exact E0.
+  set (s1 := set_proxy None (set_sel_attempts (sat3 (S (sel_attempts s0))) (unset_if c s0))).
+  assert (E1 : aux s1 = aux s) by (subst s1; unfold unset_if; destruct (_ && _); exact E0).
   destruct (if rt_eqb (rt s1) RTLeader && c_fw c then proxy_next s1 else PxLeaderOnly) as [|p|].
   - destruct (if rt_eqb (rt s1) RTLeader then next_leader c s1 else next_mixed c s1) as [tg s2] eqn:N.
     assert (E2 : aux s2 = aux s).
